@@ -286,7 +286,7 @@ def run_case(case):
     return Result(sorted(labels), nontrivial, {"excluded": excluded})
 
 
-def run_sched(first, steps, fn="net"):
+def run_sched(first, steps, fn="net", clear=False):
     """One schedule: thread `first` runs `steps` source lines of its
     net_io_counters(nowrap=True) call, then the kernel step (all raw counters
     grow), then the other thread runs to completion, then the rest.  Returns
@@ -316,7 +316,13 @@ def run_sched(first, steps, fn="net"):
 
     def caller(i):
         def run():
-            out[i] = api()
+            if clear and i == 1:
+                # cache_clear() from another thread, at any point of the
+                # in-flight call of thread 0
+                (psutil.net_io_counters if fn == "net" else psutil.disk_io_counters).cache_clear()
+                out[i] = None
+            else:
+                out[i] = api()
         return run
 
     with simk.installed(k):
@@ -344,18 +350,26 @@ def run_sched(first, steps, fn="net"):
             C._wn.lock = old_lock
             for mod, name, val in swapped:
                 setattr(mod, name, val)
-        final = api()
+        try:
+            final = api()
+            final = api()
+        except Exception as e:  # noqa: BLE001
+            raise Violation("sched-exception",
+                            f"{fn} schedule ({first}, {steps}, clear={clear}): a call made after the two "
+                            f"threads had finished raised {e!r}; pre-emption sites {sites}") from None
     if errors:
-        raise Violation("sched-exception", repr(errors))
+        raise Violation("sched-exception", f"{fn} schedule ({first}, {steps}, clear={clear}): {errors!r}; "
+                                           f"pre-emption sites {sites}")
     valid = [tuple(v[dev]) for v in versions]
-    bad = [i for i in (0, 1) if tuple(out[i][dev]) not in valid]
+    bad = [i for i in (0, 1) if out[i] is not None and tuple(out[i][dev]) not in valid]
     if tuple(final[dev]) != valid[-1]:
         bad.append("final")
     if bad:
         raise Violation(
             "phantom-wrap",
             f"{fn} schedule ({first}, {steps}): raw counters only grew {valid}; thread results "
-            f"{[tuple(out[i][dev]) for i in (0, 1)]}, later call {tuple(final[dev])}; "
+            f"{[tuple(out[i][dev]) if out[i] is not None else 'cache_clear()' for i in (0, 1)]}, "
+            f"later call {tuple(final[dev])}; "
             f"pre-emption sites {sites}")
 
 
@@ -367,18 +381,19 @@ def sched_tier(tier, seed, stats):
     ENUMERATED, not sampled."""
     bound = 40 if tier == "quick" else 160
     n = 0
-    for fn in ("net", "disk"):
+    for fn, clear in (("net", False), ("disk", False), ("net", True), ("disk", True)):
       for first in (0, 1):
         for steps in range(1, bound):
-            case = {"sched": [first, steps, fn]}
+            case = {"sched": [first, steps, fn, clear]}
             try:
-                run_sched(first, steps, fn)
+                run_sched(first, steps, fn, clear)
             except Violation as v:
                 stats.fail(case, v)
                 stats.notes["schedules_enumerated"] = n
                 return
             n += 1
-            stats.record(case, Result(["sched"], "sched|%s|%d|%d" % (fn, first, min(steps, 30))), keep_sample=(n == 1))
+            stats.record(case, Result(["sched", "sched-cache_clear"] if clear else ["sched"],
+                                      "sched|%s|%s|%d|%d" % (fn, clear, first, min(steps, 30))), keep_sample=(n == 1))
     stats.notes["schedules_enumerated"] = n
 
 
